@@ -116,6 +116,24 @@ def gen_cases(job):
             if is_p2sh(spk) or not spk:
                 spk = bytes([OP_NOP]) + spk
             cases.append(dict(script=sig, stack=st, flags=fl, sv=BASE, layer=layer, succ=spk))
+    elif layer == 'order':
+        # which error wins when two rules are broken by the same operation: the operation count is checked before the disabled-opcode
+        # rule, both before anything is executed, also inside a branch that is not taken (deterministic family)
+        dis = [OP_CAT, OP_SUBSTR, OP_LEFT, OP_RIGHT, OP_INVERT, OP_AND, OP_OR, OP_XOR, OP_2MUL, OP_2DIV, OP_MUL, OP_DIV, OP_MOD, OP_LSHIFT, OP_RSHIFT]
+        others = [OP_VERIF, OP_VERNOTIF, OP_RESERVED, OP_VER, OP_RESERVED1, OP_RESERVED2, 0xbb, OP_NOP1, OP_CHECKSIGADD, OP_RETURN]
+        for op in dis + others:
+            for pre in (199, 200, 201):
+                for sv in (BASE, WITNESS_V0):
+                    for fl in (STANDARD, 0):
+                        cases.append(dict(script=bytes([OP_NOP]) * pre + bytes([op]), stack=[b'\x01', b'\x01'], flags=fl, sv=sv, layer=layer))
+                        cases.append(dict(script=bytes([OP_0, OP_IF]) + bytes([OP_NOP]) * (pre - 1) + bytes([OP_ENDIF, op]), stack=[b'\x01', b'\x01'], flags=fl, sv=sv, layer=layer))
+                        cases.append(dict(script=bytes([OP_0, OP_IF]) + bytes([OP_NOP]) * (pre - 1) + bytes([op, OP_ENDIF]), stack=[b'\x01', b'\x01'], flags=fl, sv=sv, layer=layer))
+        # a push above the size limit as the 202nd operation / in an unexecuted branch
+        for pre in (200, 201):
+            for sv in (BASE, WITNESS_V0):
+                big = bytes([OP_PUSHDATA2, 521 & 255, 521 >> 8]) + b'z' * 521
+                cases.append(dict(script=bytes([OP_NOP]) * pre + bytes([OP_1, OP_IF]) + big + bytes([OP_ENDIF]), stack=[], flags=STANDARD, sv=sv, layer=layer))
+        cases = [c for i, c in enumerate(cases) if i % n == idx]
     elif layer == 'p2sh':
         # plain scripts that are exactly the P2SH template: the last stack item is the serialized script
         for i in range(n):
@@ -318,6 +336,7 @@ def plan(tier):
         jobs += [('bytes', i, 1000, tier) for i in range(8)]
         jobs += [('p2sh', i, 500, tier) for i in range(8)]
         jobs += [('succ', i, 800, tier) for i in range(8)]
+        jobs += [('order', i, 4, tier) for i in range(4)]
     else:
         jobs += [('exh1', i, 8, tier) for i in range(8)]
         jobs += [('exh2', i, (240, 1), tier) for i in range(240)]
@@ -326,6 +345,7 @@ def plan(tier):
         jobs += [('bytes', i, 1000, tier) for i in range(60)]
         jobs += [('p2sh', i, 500, tier) for i in range(40)]
         jobs += [('succ', i, 1000, tier) for i in range(60)]
+        jobs += [('order', i, 4, tier) for i in range(4)]
     return jobs
 
 
